@@ -502,6 +502,8 @@ def frequency_axes(repo, rep):
 
 
 def run(repo, rep, tier):
+    from .round7b import hygiene
+    hygiene(repo, rep, "C13", ('wavespectra.input.', 'wavespectra.core.swan'), falsy=True)
     rep.rule("R-C13-19", "(shared with C12) coordinate grids built with arange / linspace do not borrow their dtype from file data")
     rep.rule("R-C13-20", "no zip() in a reader pairs a fixed-length literal with file-derived columns / rows without strict=True (silent truncation of date "
                          "fields or trailing columns)")
